@@ -12,6 +12,7 @@ import Pcore.Proofs.FilesAncestor
 import Pcore.Proofs.FilesTypeset
 import Pcore.Proofs.FilesTermMain
 import Pcore.Proofs.FilesTypesetChild
+import Pcore.Proofs.FilesFuelMono
 /-!
 # C15 — File-based loading maps names to definition files faithfully
 
@@ -91,7 +92,9 @@ Full statement / proved / missing
 * `C15_terminates`, `C15_terminates_seq` (proved, full: any tree, modules, context loader, topology, state, names) —
   termination of the model: with `guardInit` and fuel `(W+1) * (|mods| + T + 3(|name| + W) + 14)` no lookup answers
   `diverges` (`W` = instantiable (loader, key) pairs without an entry, `T` = largest type set), and no lookup removes an
-  entry.
+  entry.  `C15_fuel_irrelevant`, `C15_fuel_irrelevant_seq` (proved, full) — a lookup that does not run out of fuel
+  answers the same (outcome and state) with any larger fuel; `C15_answer_determined` — hence with the guard every fuel
+  from `seqBound` on gives the same outcomes and state.
 -/
 namespace Pcore.Files
 
@@ -1070,6 +1073,34 @@ example :
       [.found ⟨.typeset, ["Other", "Sub", "Set"]⟩, .found ⟨.object, ["Other", "Sub", "Set", "Twig"]⟩] := by
   refine ⟨memHyp_of_check (by decide), memHyp_of_check (by decide), by decide, by decide, quietAnc_of_check (by decide),
     Or.inl ⟨rfl, Or.inr ⟨_, rfl, rfl⟩⟩, memHyp_of_check (by decide), memHyp_of_check (by decide), by decide⟩
+
+/-! ## the fuel is immaterial -/
+
+/-- a lookup that does not run out of fuel answers the same — outcome AND state — with any larger fuel (for any tree,
+    modules, context loader, state, name; also without the guard).  Hence every theorem above that names a fuel (`n+7`,
+    `m+8`, `k+10`, …) holds for every larger fuel as well. -/
+theorem C15_fuel_irrelevant (cfg : Cfg) (s : St) (name : Name) (n m : Nat) (hnm : n ≤ m)
+    (h : (loadS n cfg s name).1 ≠ .failed .diverges) : loadS m cfg s name = loadS n cfg s name :=
+  loadS_fuel_mono cfg s name n m hnm h
+
+theorem C15_fuel_irrelevant_seq (cfg : Cfg) (n m : Nat) (hnm : n ≤ m) (names : List Name) (s : St)
+    (h : ∀ o ∈ (runLoads n cfg s names).1, o ≠ .failed .diverges) : runLoads m cfg s names = runLoads n cfg s names :=
+  runLoads_fuel_mono cfg n m hnm names s h
+
+/-- with the guard the answer of a lookup sequence is DETERMINED: every fuel from `seqBound` on gives the same outcomes
+    and the same state (termination + fuel irrelevance) — in particular the driver's `max 5000 (seqBound …)` -/
+theorem C15_answer_determined (cfg : Cfg) (hg : cfg.guardInit = true) (names : List Name) (s : St) (fuel : Nat)
+    (hf : seqBound cfg s names ≤ fuel) :
+    runLoads fuel cfg s names = runLoads (seqBound cfg s names) cfg s names :=
+  runLoads_fuel_mono cfg _ fuel hf names s (runLoads_terminates cfg hg names s _ (Nat.le_refl _))
+
+/-- non-vacuity: fuel 14 is enough for this sequence (no `diverges`), so fuel 5000 gives the very same result -/
+example : (∀ o ∈ (runLoads 14 flatCfg {} [["BILLING"], ["Billing", "Invoice"], ["Other"]]).1, o ≠ .failed .diverges) ∧
+    runLoads 5000 flatCfg {} [["BILLING"], ["Billing", "Invoice"], ["Other"]] =
+      runLoads 14 flatCfg {} [["BILLING"], ["Billing", "Invoice"], ["Other"]] := by
+  have h : ∀ o ∈ (runLoads 14 flatCfg {} [["BILLING"], ["Billing", "Invoice"], ["Other"]]).1, o ≠ .failed .diverges := by
+    decide
+  exact ⟨h, C15_fuel_irrelevant_seq flatCfg 14 5000 (by decide) _ _ h⟩
 
 /-! ## negation witnesses for the known findings -/
 
